@@ -762,6 +762,18 @@ def param_fp(t):
     return tuple(parts)
 
 
+def results_defined(spec, name):
+    """Whether the VALUE returned by an evaluation is defined by the documented contract.
+
+    A transform whose parameters are predicted by a callable holds them in the buffer `p`, which is uninitialised memory
+    (torch.empty) until update() ran; the docs require update() before tensor()/disp()/points() are used.  For the state
+    (callable, fresh) only __call__ (runs update() through the pre-forward hook) and update() itself return defined values;
+    for every other evaluation only "parameters / grid / conditioning unchanged" is judged, results are not compared."""
+    if spec.get("params") == "callable" and spec.get("pre", "fresh") == "fresh":
+        return name.startswith("call(") or name == "update()"
+    return True
+
+
 def run_eval(spec, name):
     """-> (status, problems, obs)"""
     import contextlib
@@ -790,6 +802,8 @@ def run_eval(spec, name):
         problems.append(("parameters-" + "+".join(kinds) + "/second-call", "second evaluation changed parameters / grid / conditioning: " + "; ".join(mutfp.diff(mid, after))))
     if st2 == "raises":
         problems.append(("second-call-raises=" + type(r2).__name__, "the same evaluation raises when repeated: " + exc_text(r2)))
+    elif not results_defined(spec, name):
+        pass  # never-updated transform with predicted parameters: the buffer p is torch.empty() memory (see results_defined)
     elif isinstance(r1, Tensor) and isinstance(r2, Tensor):
         if r1.shape != r2.shape or not torch.equal(r1.detach(), r2.detach()):
             err = float((r1.detach().double() - r2.detach().double()).abs().max()) if r1.shape == r2.shape else float("nan")
@@ -815,6 +829,8 @@ def run_eval_shard(acc: Acc, shard):
             acc.violation(eval_sig(spec, name, problem), case, detail, size=1)
         if status == "ok":
             acc.nontriv("eval", spec, name)
+            if not results_defined(spec, name):
+                acc.undef("eval-result-of-never-updated-callable-transform-not-compared")
         else:
             acc.undef(f"eval-{status}:{obs[1] if len(obs) > 1 else ''}")
 
